@@ -7,23 +7,22 @@ namespace Uquic.Proofs.Fields
 open Uquic.Model.H3.Fields Uquic.Gen.H3Fields
 
 theorem finish_cl (s : PS) (h : Hdr) (hf : finish s = .ok h) :
-    s.clStr = [] ∨ (s.clStr ≠ [] ∧ ∀ b ∈ s.clStr, isDigit b = true) := by
+    s.readCL = false ∨ (s.readCL = true ∧ s.clStr ≠ [] ∧ (∀ b ∈ s.clStr, isDigit b = true) ∧ decVal s.clStr < 2 ^ 63) := by
   unfold finish at hf
   split at hf
-  · rename_i hne
+  · rename_i hr
     right
-    refine ⟨by simpa using hne, ?_⟩
     split at hf
     · cases hf
     rename_i v hv
     unfold parseUint63 at hv
     split at hv
     · rename_i hc
-      simp only [Bool.and_eq_true] at hc
-      exact fun b hb => List.all_eq_true.mp hc.1.2 b hb
+      simp only [Bool.and_eq_true, Bool.not_eq_true', List.isEmpty_eq_false_iff, decide_eq_true_eq] at hc
+      exact ⟨hr, hc.1.1, fun b hb => List.all_eq_true.mp hc.1.2 b hb, hc.2⟩
     · cases hv
-  · rename_i he
-    left; simpa using he
+  · rename_i hr
+    left; simpa using hr
 
 /-- the rejection classes of the parseHeaders loop -/
 def loopErrors : List Err := [.tooLarge, .notLower, .badValue, .pseudoAfterRegular, .unknownPseudo, .dupPseudo,
